@@ -13,10 +13,19 @@
         -> ids=<..> dec=<hex|-|err>
 
   <runes> = dot-separated decimal code points, `-` = empty.
+    vocab <nv> {<runes>}* <nt> {<type>}* <nm> {<runes>}* <nq> {<runes>}* <nmq> {<runesL> <runesR>}*
+        the concrete Vocabulary (Model/TokenizerVocab.lean): SpecialVocabulary with the ids Encode looks up,
+        Encode of every query, Merge of every query pair, Decode of every id
+        -> sp=<runes:id;..|-|panic> enc=<id,..|-> mrg=<rank,..|-> dec=<runes;..|->
+    bpecov / spmcov <same input as bpe / spm>
+        -> the branches of the model this case goes through (space-separated flags; see `covBpe`, `covSpm`);
+           used by the check for the fail-closed branch coverage of the correspondence run, not compared with the code
+
   The BPE variant flag (pinned 0x7e / repaired 0x7f) is NOT an input: it comes from the byte table
   regenerated from the working tree (Generated/C20_ByteMap.lean).
 -/
 import OllamaVerif.Model.Tokenizer
+import OllamaVerif.Model.TokenizerVocab
 import OllamaVerif.Generated.C20_ByteMap
 import Oracle.Util
 namespace Oracle.C20
@@ -68,7 +77,14 @@ def showIds (ids : List Nat) : String :=
 
 def showBytes (bs : Str) : String := hexOrDash (bs.map UInt8.ofNat)
 
-def pBpe : TP String := do
+structure BpeIn where
+  add : AddCfg
+  text : Str
+  specials : List Special
+  splits : List (Str × List Str)
+  V : Vocab
+
+def pBpeIn : TP BpeIn := do
   let add ← pAdd
   let text ← bytes
   let specials ← listOf (do
@@ -91,17 +107,113 @@ def pBpe : TP String := do
     pure (l, r, rk))
   -- the special tokens' own strings are vocabulary entries too (needed by Decode)
   let ents := ents ++ specials.map fun sp => (sp.runes, sp.id, (0 : Int))
-  let V := mkVocab ents merges
-  let frs := fragments specials text
-  let missing := frs.any fun fr => match fr with
-    | .text s => (lookup splits s).isNone
-    | .special _ => false
-  if missing then pure "err:nosplit" else
-  let split : Str → List Str := fun s => (lookup splits s).getD []
-  let ids := bpeEncode OllamaVerif.Generated.C20.pinned V split specials add text
-  pure s!"ids={showIds ids} dec={showBytes (bpeDecode V ids)}"
+  pure ⟨add, text, specials, splits, mkVocab ents merges⟩
 
-def pSpm : TP String := do
+def BpeIn.missing (x : BpeIn) : Bool :=
+  (fragments x.specials x.text).any fun fr => match fr with
+    | .text s => (lookup x.splits s).isNone
+    | .special _ => false
+
+def BpeIn.split (x : BpeIn) : Str → List Str := fun s => (lookup x.splits s).getD []
+
+def pBpe : TP String := do
+  let x ← pBpeIn
+  if x.missing then pure "err:nosplit" else
+  let ids := bpeEncode OllamaVerif.Generated.C20.pinned x.V x.split x.specials x.add x.text
+  pure s!"ids={showIds ids} dec={showBytes (bpeDecode x.V ids)}"
+
+/-! ### branch coverage of the model (commands `bpecov`, `spmcov`) -/
+
+/-- why a popped candidate was discarded (`bpe`: value test + token test; SPM: size test).  `rej_nonadjacent`
+    means both ends are live and pass the code's own test but are not neighbours: the linked-list invariant the
+    model's `joinAt` relies on would be broken (must never be seen). -/
+def whyRejected (V : Vocab) (bpe : Bool) (ps : List Part) (c : Cand) : String :=
+  match getPart ps c.a, getPart ps c.b with
+  | some l, some r =>
+    if bpe then
+      (if l.runes ++ r.runes != c.value then "rej_stale" else if (V.tokId c.value).isNone then "rej_nontoken"
+       else "rej_nonadjacent")
+    else (if (utf8s l.runes).length + (utf8s r.runes).length != c.size then "rej_stale" else "rej_nonadjacent")
+  | _, _ => "rej_dead"
+
+/-- `mergeLoop` with the same step functions, recording what happens to every popped candidate -/
+def mergeLoopCov (cfg : Cfg) (why : List Part → Cand → String) (n : Nat) :
+    Nat → List Part → Array Cand → List String → List Part × List String
+  | 0, ps, h, fl => (ps, if h.size > 0 then "fuel_exhausted" :: fl else fl)
+  | f+1, ps, h, fl =>
+    match heapPop cfg.less h with
+    | none => (ps, fl)
+    | some (c, h) =>
+      match joinAt (cfg.ok c) ps c.a c.b with
+      | some ps' =>
+        let h := match prevStart ps' c.a with
+          | some p => pushCand cfg ps' h p c.a
+          | none => h
+        let nx := nextStart ps' c.a n
+        let h := if nx < n then pushCand cfg ps' h c.a nx else h
+        mergeLoopCov cfg why n f ps' h ("merge_ok" :: fl)
+      | none => mergeLoopCov cfg why n f ps h (why ps c :: fl)
+
+def mergeAllCov (cfg : Cfg) (why : List Part → Cand → String) (rs : Str) : List String :=
+  let ps := initParts rs 0
+  let r := mergeLoopCov cfg why rs.length (3 * rs.length + 3) ps (initHeap cfg ps ps #[]) []
+  -- the instrumented copy must compute what the model computes
+  if r.1.map (·.runes) == (mergeAll cfg rs).map (·.runes) then r.2 else "cov_copy_diverged" :: r.2
+
+def dedup (l : List String) : List String :=
+  l.foldl (fun acc x => if acc.contains x then acc else acc ++ [x]) []
+
+def fragFlags (frs : List Frag) : List String :=
+  let isSp : Frag → Bool := fun fr => match fr with | .special _ => true | .text _ => false
+  let nsp := (frs.filter isSp).length
+  (if nsp == 0 then ["frag_no_special"] else []) ++
+  (if nsp ≥ 2 then ["frag_specials_ge2"] else []) ++
+  (match frs.head? with | some fr => if isSp fr then ["frag_special_first"] else [] | none => []) ++
+  (match frs.getLast? with | some fr => if isSp fr && frs.length > 1 then ["frag_special_last"] else [] | none => []) ++
+  (if nsp ≥ 1 && frs.any (fun fr => !isSp fr) then ["frag_special_and_text"] else []) ++
+  ((frs.zip frs.tail).flatMap fun (a, b) => if isSp a && isSp b then ["frag_special_adjacent"] else [])
+
+def addFlags (c : AddCfg) (ids : List Nat) : List String :=
+  if c.addSpecial && ids.isEmpty then ["add_requested_empty"] else
+  if c.addSpecial then (if c.addBOS then ["bos_added"] else []) ++ (if c.addEOS then ["eos_added"] else [])
+  else ["add_not_requested"]
+
+def encFlag (pinned : Bool) (b : Nat) : String :=
+  if b = 0xad then "enc_ad" else if b ≤ 0x20 then "enc_low"
+  else if (if pinned then 0x7e else 0x7f) ≤ b ∧ b ≤ 0xa0 then "enc_mid" else "enc_plain"
+
+def decFlag (r : Nat) : String :=
+  if r = 0x100 then "dec_skip_0x100" else if r = 0x143 then "dec_0x143"
+  else if 0x100 < r ∧ r ≤ 0x120 then "dec_low" else if 0x120 < r ∧ r ≤ 0x142 then "dec_mid"
+  else if r < 256 then "dec_plain" else "dec_truncated_rune"
+
+def covBpe (x : BpeIn) : List String :=
+  let pinned := OllamaVerif.Generated.C20.pinned
+  let frs := fragments x.specials x.text
+  let pieces := frs.flatMap fun fr => match fr with | .text s => x.split s | .special _ => []
+  let pf := pieces.flatMap fun piece =>
+    let mapped := piece.map (encByte pinned)
+    piece.map (encFlag pinned) ++
+    match x.V.tokId mapped with
+    | some _ => ["piece_shortcut"]
+    | none =>
+      "piece_merge_loop" :: (mergeAllCov (bpeCfg x.V) (whyRejected x.V true) mapped ++
+        ((mergeAll (bpeCfg x.V) mapped).flatMap fun p => if (x.V.tokId p.runes).isNone then ["part_dropped"] else []))
+  let ids0 := frs.flatMap (bpeFrag pinned x.V x.split)
+  let ids := addSpecials x.add ids0
+  dedup (fragFlags frs ++ pf ++ addFlags x.add ids0 ++ ids.flatMap fun id => (x.V.tokStr id).map decFlag)
+
+def pBpeCov : TP String := do
+  let x ← pBpeIn
+  if x.missing then pure "err:nosplit" else pure (joinWith " " (covBpe x))
+
+structure SpmIn where
+  add : AddCfg
+  text : Str
+  specials : List Special
+  V : Vocab
+
+def pSpmIn : TP SpmIn := do
   let add ← pAdd
   let text ← runes
   let specials ← listOf (do
@@ -114,17 +226,78 @@ def pSpm : TP String := do
     let sc ← int
     pure (rs, id, sc))
   let ents := ents ++ specials.map fun sp => (sp.runes, sp.id, (0 : Int))
-  let V := mkVocab ents []
-  let ids := spmEncode V specials add text
-  let dec := match spmDecode V ids with
+  pure ⟨add, text, specials, mkVocab ents []⟩
+
+def pSpm : TP String := do
+  let x ← pSpmIn
+  let ids := spmEncode x.V x.specials x.add x.text
+  let dec := match spmDecode x.V ids with
     | some bs => showBytes bs
     | none => "err"
   pure s!"ids={showIds ids} dec={dec}"
+
+def covSpm (x : SpmIn) : List String :=
+  let V := x.V
+  let frs := fragments x.specials x.text
+  let tf := frs.flatMap fun fr => match fr with
+    | .special _ => []
+    | .text s =>
+      let text := s.map spaceToSep
+      (if s.contains 32 then ["sep_replaced"] else []) ++
+      match V.tokId text with
+      | some _ => ["text_shortcut"]
+      | none =>
+        "text_merge_loop" :: (mergeAllCov (spmCfg V) (whyRejected V false) text ++
+          ((mergeAll (spmCfg V) text).flatMap fun p =>
+            match V.tokId p.runes with
+            | some _ => ["part_token"]
+            | none => "byte_fallback" :: ((utf8s p.runes).flatMap fun b =>
+                if (V.tokId (byteTok b)).isNone then ["byte_token_missing"] else [])))
+  let ids0 := frs.flatMap (spmFrag V)
+  let ids := addSpecials x.add ids0
+  let df := ids.map fun id =>
+    match parseByteTok (utf8s ((V.tokStr id).map sepToSpace)) with
+    | none => if (V.tokStr id).contains sepRune then "dec_sep_to_space" else "dec_verbatim"
+    | some none => "dec_parse_error"
+    | some (some _) => "dec_byte_token"
+  dedup (fragFlags frs ++ tf ++ addFlags x.add ids0 ++ df)
+
+def pSpmCov : TP String := do
+  let x ← pSpmIn
+  pure (joinWith " " (covSpm x))
+
+def showRunes (rs : Str) : String :=
+  if rs.isEmpty then "-" else joinWith "." (rs.map toString)
+
+def orDash (sep : String) (l : List String) : String := if l.isEmpty then "-" else joinWith sep l
+
+def pVocab : TP String := do
+  let values ← listOf runes
+  let types ← listOf nat
+  let merges ← listOf runes
+  let qs ← listOf runes
+  let mqs ← listOf (do
+    let l ← runes
+    let r ← runes
+    pure (l, r))
+  let D : VocabData := ⟨values, types, [], merges⟩
+  let V := D.vocab
+  let sp := match D.specialStrings with
+    | none => "panic"
+    | some _ => orDash ";" ((D.specials (fun x => x)).map fun (q : Special) => s!"{showRunes q.runes}:{q.id}")
+  let showOpt : Option Nat → String := fun o => match o with | some i => toString i | none => "-1"
+  let enc := orDash "," (qs.map fun q => showOpt (V.tokId q))
+  let mrg := orDash "," (mqs.map fun (l, r) => showOpt (V.rank l r))
+  let dec := orDash ";" ((List.range V.size).map fun i => showRunes (V.tokStr i))
+  pure s!"sp={sp} enc={enc} mrg={mrg} dec={dec}"
 
 def handle (toks : List String) : Option String :=
   match toks with
   | "bpe" :: rest => runTP pBpe rest
   | "spm" :: rest => runTP pSpm rest
+  | "bpecov" :: rest => runTP pBpeCov rest
+  | "spmcov" :: rest => runTP pSpmCov rest
+  | "vocab" :: rest => runTP pVocab rest
   | _ => none
 
 end Oracle.C20
